@@ -4,9 +4,13 @@
 case = {"text": str, "curs": [int], "qs": [[op, args...]], "share": bool}
   text-level queries  : ["T"], ["I", i], ["R", row, col]
   cursor-level queries: ["V"], ["M"], ["COL", k], ["LR", n], ["UD", n, pref|None], ["PAR", n],
-                        ["F", sub, n], ["W", n], ["WB"], ["BR", l, r, end|None], ["BL", l, r, start|None],
-                        ["BM", start|None, end|None]
+                        ["F", sub, n], ["W", n], ["WS", n], ["WB"], ["BR", l, r, end|None],
+                        ["BL", l, r, start|None], ["BM", start|None, end|None]
+       ("WS": the declarative SPECIFICATION of the word motions, Ptk.Model.C02Spec, n >= 1)
 One protocol line per text-level query and per (cursor-level query, cursor).
+case = {"kind": "scan", "texts": [str]}: the regex scanners alone against the compiled regexes of
+       prompt_toolkit.document (one "SC" line per text), over an alphabet with Unicode word characters.
+case = {"kind": "cache", "kops": [...]}: cache-level operations.
 """
 from __future__ import annotations
 
@@ -23,50 +27,100 @@ from prompt_toolkit.document import Document
 
 ID = "C02"
 DRIVER = "drv_c02"
-PROPS = ["Ptk.Props.C02", "Ptk.Props.C02Extra"]
+PROPS = ["Ptk.Props.C02", "Ptk.Props.C02Extra", "Ptk.Props.C02Find", "Ptk.Props.C02Para", "Ptk.Props.C02Bracket",
+         "Ptk.Props.C02WordB", "Ptk.Props.C02Words", "Ptk.Props.C02Gen"]
 TECHNIQUE = "Lean 4 proof over hand-written executable model + differential correspondence with the real code"
 LEVEL_TEXT = ("Lean 4 theorems over an executable model of prompt_toolkit.document.Document: index<->(row,col) "
-              "translations are mutually inverse and agree with split('\\n'); before/after/current-line/row/col "
-              "describe the same text; every modelled relative motion keeps 0 <= cursor+offset <= len(text), "
-              "within-line motions stay on the line, find/find_backwards/bracket/word queries land on what they name; "
-              "the model is tied to /repo on every run by pattern pins, a differential correspondence (exhaustive "
-              "small scope + random texts incl. wide characters and Unicode blanks) and the property oracle")
+              "translations are mutually inverse, agree with split('\\n') and clamp every integer row/column "
+              "(total specification); before/after/current-line/row/col/current char/line flags describe the same "
+              "text; every modelled relative motion keeps 0 <= cursor+offset <= len(text), within-line motions stay "
+              "on the line; find / find_backwards / find_all report exactly the count-th nearest non-overlapping "
+              "occurrence (every count, also within the current line); the four word / WORD motions are proved EQUAL "
+              "to a declarative specification ('the count-th offset whose target starts / ends a run of word "
+              "characters or punctuation') for all texts, cursors and counts; bracket queries report the first "
+              "bracket that balances and None only when none does; start/end_of_paragraph, the matching-line "
+              "loops, word boundaries with whitespace flags, word under / before the cursor, leading whitespace and "
+              "trailing empty lines have exact characterisations; the shared line-table cache is transparent; the "
+              "model is tied to /repo on every run by regenerated regex pattern strings and character-class tables "
+              "of the compiled regexes (side conditions re-decided by the kernel), a differential correspondence "
+              "(exhaustive small scope + random texts incl. wide characters and Unicode blanks, a scanner-vs-`re` "
+              "differential over Unicode word characters, the Lean specification against the real code) and the "
+              "property oracle")
 LEVEL_NOTE = ("trusted: Lean kernel, axioms propext/Classical.choice/Quot.sound only; the hand-written model and "
-              "regex scanners (validated by the correspondence and the pattern pins, not proved equal to the "
-              "Python); CPython str/re/bisect semantics")
+              "regex scanners (validated by the correspondence, the pattern pins and the regenerated class tables, "
+              "not proved equal to the Python); CPython str/re semantics, bisect = the binary search of Lib/bisect.py")
 RULE = ("exhaustive: every text over {a . space \\n ( )} (and over {B _ tab [ ] wide-char}) up to the tier's "
         "length bound x every cursor x every query family with counts -2..3 (oversized included), needles of "
-        "length 0..2, all flag combinations, bracket limits -1..len+1; then seeded random texts (up to 60 chars; "
-        "letters, digits, punctuation, brackets, quotes, tabs, Unicode blanks, wide characters) with "
-        "boundary-biased cursors and needles cut from the text; documents with equal text share the line-table "
-        "cache (share=true) or are re-created per query (share=false); cache-level cases interleave line/index "
-        "queries on 1-3 texts through fresh Document objects with garbage collection of entries; a case is "
-        "non-trivial when the text is non-empty (cache cases: more than one op)")
+        "length 0..2, all flag combinations, bracket limits -1..len+1, the word-motion specification for counts "
+        "1..3; then seeded random texts (up to 60 chars; letters, digits, punctuation, brackets, quotes, tabs, "
+        "Unicode blanks, wide characters) with boundary-biased cursors and needles cut from the text; documents "
+        "with equal text share the line-table cache (share=true) or are re-created per query (share=false); "
+        "cache-level cases interleave line/index queries on 1-3 texts through fresh Document objects with garbage "
+        "collection of entries; scan cases run the regex scanners of the model against the compiled regexes of "
+        "document.py on every string over {a e-acute _ wide combining-acute arabic-digit . space U+2028} up to "
+        "length 3 (thorough: 4) plus random strings over 13 symbols up to length 20; a case is non-trivial when "
+        "the text is non-empty (cache cases: more than one op; scan cases: a non-empty string)")
 EXHAUSTIVE = True
-EXHAUSTIVE_SCOPE = {"quick": "alphabet {a . space \\n ( )} len<=4 and {B _ tab [ ] wide} len<=3, all cursors, all query families",
+EXHAUSTIVE_SCOPE = {"quick": "alphabet {a . space \\n ( )} len<=4 and {B _ tab [ ] wide} len<=3, all cursors, all query families; "
+                             "scanner differential: 9 symbols incl. Unicode word characters, len<=3",
                     "thorough": "alphabet {a . space \\n ( )} len<=5, {B _ tab [ ] wide} len<=4, {a space \\n (} len=6 (reduced query set), "
-                                "all cursors, all query families"}
+                                "all cursors, all query families; scanner differential: 9 symbols, len<=4"}
 TRUSTED = ["harness/c02.py compares every query result field by field",
            "Ptk/Model/C02.lean is a hand translation of document.py (correspondence-checked)",
-           "the six word regexes are replaced by run scanners; pattern strings are pinned by `decide` examples"]
-ASSUMPTIONS = ["CPython str slicing/split semantics; bisect.bisect_right meets its specification on sorted lists",
-               "regex \\s and str.isspace tables regenerated from the interpreter",
+           "the six word regexes are replaced by run scanners; the pattern strings, their flags, the character "
+           "classes of the compiled regex objects over all code points, the bracket pairs and the boundary alphabet "
+           "are regenerated from /repo by harness/gen_c02.py and pinned by kernel-decided theorems "
+           "(Ptk.Props.C02Gen: gen_patterns_ok, gen_ok, gen_space_ok, gen_brackets_ok, gen_alphabet_ok)",
+           "harness/gen_c02.py is trusted to print what `re` / `ast` report"]
+ASSUMPTIONS = ["CPython str slicing/split semantics; bisect.bisect_right is the binary search of Lib/bisect.py "
+               "(modelled as that loop and proved equal to its specification on the sorted line-start table)",
+               "regex \\s and str.isspace tables regenerated from the interpreter (regex \\s is a subset of "
+               "str.isspace: re-decided on every run)",
                "re.IGNORECASE = ASCII case folding on the generated alphabet (no non-ASCII cased letters)",
                "selection-dependent queries run in Emacs mode (vi_mode() False)"]
-PARTIAL_SCOPE = ["selection_range(s) / selection_range_at_line / cut_selection / paste_clipboard_data not modelled (C09)",
+PARTIAL_SCOPE = ["selection_range(s) / selection_range_at_line / cut_selection / paste_clipboard_data / insert_after / "
+                 "insert_before not modelled (C09)",
                  "custom `pattern=` argument of find_start_of_previous_word / get_word_before_cursor not modelled",
-                 "negative cursor positions, negative rows of translate_row_col_to_index and count = 0 of the word "
-                 "motions are outside the property (modelled and correspondence-checked, no theorem)",
-                 "find: soundness, nearest (count = 1) and the step count -> count+1 (nearest non-overlapping "
-                 "next match, none skipped) proved; find_backwards: soundness and nearest (count = 1) proved, "
-                 "count > 1 ordering correspondence-checked only",
-                 "start/end_of_paragraph: bounds and direction proved, the exact target is correspondence-checked only",
-                 "find_boundaries_of_current_word with whitespace flags: on-line/direction proved, 'one word' only "
-                 "without the flags; get_word_before/under_cursor, leading_whitespace_in_current_line, "
-                 "empty_line_count_at_the_end: correspondence + oracle only",
-                 "find_previous_word_ending at cursor == len(text): known finding (off by one), theorem "
-                 "prevWordEnding_lands_partial excludes exactly that region, prevWordEnding_defect proves the witness",
-                 "bisect.bisect_right is modelled by its specification on sorted lists (lineStarts_sorted proved)"]
+                 "negative cursor positions and count = 0 of the word motions are outside the property (modelled and "
+                 "correspondence-checked, no theorem); negative rows of translate_row_col_to_index: proved as the "
+                 "code behaves (Python wrap-around of lines[row] first, row 0 only on IndexError)",
+                 "find_previous_word_ending at cursor == len(text): known finding (off by one); the refinement theorem "
+                 "prevWordEnding_refines_partial and prevWordEnding_lands_partial exclude exactly that region, "
+                 "prevWordEnding_defect / prevWordEnding_refines_fails_at_end prove the witness",
+                 "count < 1 of find / find_backwards / matching lines / paragraphs: modelled and correspondence-checked, "
+                 "theorems are stated for count >= 1 (the property's quantifier)",
+                 "ignore_case with non-ASCII cased letters is not generated (the theorems hold for every character "
+                 "equality `eq`)",
+                 "bisect.bisect_right is a standard-library function: the model follows the loop of Lib/bisect.py "
+                 "(bisectRightAlg_eq: equal to 'number of entries <= x' on sorted lists; the C accelerator is "
+                 "assumed to implement the same search)"]
+MODELLED = {"src/prompt_toolkit/document.py": [
+    "_DocumentCache.__init__", "Document.__init__",
+    "Document.current_char", "Document.char_before_cursor", "Document.text_before_cursor",
+    "Document.text_after_cursor", "Document.current_line_before_cursor", "Document.current_line_after_cursor",
+    "Document.lines", "Document._line_start_indexes", "Document.lines_from_current", "Document.line_count",
+    "Document.current_line", "Document.leading_whitespace_in_current_line",
+    "Document._get_char_relative_to_cursor", "Document.on_first_line", "Document.on_last_line",
+    "Document.cursor_position_row", "Document.cursor_position_col", "Document._find_line_start_index",
+    "Document.translate_index_to_position", "Document.translate_row_col_to_index",
+    "Document.is_cursor_at_the_end", "Document.is_cursor_at_the_end_of_line",
+    "Document.has_match_at_current_position", "Document.find", "Document.find_all", "Document.find_backwards",
+    "Document.get_word_before_cursor", "Document._is_word_before_cursor_complete",
+    "Document.find_start_of_previous_word", "Document.find_boundaries_of_current_word",
+    "Document.find_boundaries_of_current_word.get_regex", "Document.get_word_under_cursor",
+    "Document.find_next_word_beginning", "Document.find_next_word_ending",
+    "Document.find_previous_word_beginning", "Document.find_previous_word_ending",
+    "Document.find_next_matching_line", "Document.find_previous_matching_line",
+    "Document.get_cursor_left_position", "Document.get_cursor_right_position",
+    "Document.get_cursor_up_position", "Document.get_cursor_down_position",
+    "Document.find_enclosing_bracket_right", "Document.find_enclosing_bracket_left",
+    "Document.find_matching_bracket_position", "Document.get_start_of_document_position",
+    "Document.get_end_of_document_position", "Document.get_start_of_line_position",
+    "Document.get_end_of_line_position", "Document.last_non_blank_of_current_line_position",
+    "Document.get_column_cursor_position", "Document.empty_line_count_at_the_end",
+    "Document.start_of_paragraph", "Document.start_of_paragraph.match_func",
+    "Document.end_of_paragraph", "Document.end_of_paragraph.match_func"]}
+ANCHORS = ["src/prompt_toolkit/document.py"]
 
 ALPHA = ["a", ".", " ", "\n", "(", ")"]
 RAND_ALPHA = list("abcXY_09") + list(".,;-+") + [" ", " ", " ", "\n", "\n", "\t"] + list("()[]{}<>") + \
@@ -87,7 +141,7 @@ def q_line(text, cur, q):
         return f"R {t} {q[1]} {q[2]}"
     if op in ("V", "M", "WB"):
         return f"{op} {t} {cur}"
-    if op in ("COL", "LR", "PAR", "W"):
+    if op in ("COL", "LR", "PAR", "W", "WS"):
         return f"{op} {t} {cur} {q[1]}"
     if op == "UD":
         return f"UD {t} {cur} {q[1]} {enc_opt_int(q[2])}"
@@ -126,6 +180,8 @@ def kop_tokens(op):
 def model_lines(case):
     if case.get("kind") == "cache":
         return ["K " + " ".join(tok for op in case["kops"] for tok in kop_tokens(op))]
+    if case.get("kind") == "scan":
+        return [f"SC {enc_str(t)}" for t in case["texts"]]
     return [q_line(case["text"], c, q) for c, q in expand(case)]
 
 
@@ -204,6 +260,17 @@ def answer(d: Document, q) -> str:
                     kv(f"pwb{w}", enc_opt_int(d.find_previous_word_beginning(count=n, WORD=W))),
                     kv(f"pwe{w}", enc_opt_int(d.find_previous_word_ending(count=n, WORD=W))),
                     kv(f"spw{w}", enc_opt_int(d.find_start_of_previous_word(count=n, WORD=W)))]
+        return " ".join(out)
+    if op == "WS":
+        n = q[1]
+        out = []
+        for W in (False, True):
+            w = enc_bool(W)
+            out += [kv(f"nwb{w}", enc_opt_int(d.find_next_word_beginning(count=n, WORD=W))),
+                    kv(f"nwe0{w}", enc_opt_int(d.find_next_word_ending(include_current_position=False, count=n, WORD=W))),
+                    kv(f"nwe1{w}", enc_opt_int(d.find_next_word_ending(include_current_position=True, count=n, WORD=W))),
+                    kv(f"pwb{w}", enc_opt_int(d.find_previous_word_beginning(count=n, WORD=W))),
+                    kv(f"pwe{w}", enc_opt_int(d.find_previous_word_ending(count=n, WORD=W)))]
         return " ".join(out)
     if op == "WB":
         out = []
@@ -290,8 +357,31 @@ def impl_lines(case):
             else:
                 parts.append(f"R {a}")
         return [" | ".join(parts)]
+    if case.get("kind") == "scan":
+        return [scan_answer(t) for t in case["texts"]]
     get = make_docs(case)
     return [answer(get(c), q) for c, q in expand(case)]
+
+
+def scan_answer(t: str) -> str:
+    """what the compiled regexes of prompt_toolkit.document report on `t` (driver format of "SC")"""
+    import prompt_toolkit.document as D
+
+    def runs(rx):
+        return enc_list([f"{m.start(1)}:{m.end(1)}" for m in rx.finditer(t)])
+
+    def end1(rx):
+        m = rx.search(t)
+        return "N" if m is None else str(m.end(1))
+
+    out = []
+    for W, rx, cur, curws in (
+            (False, D._FIND_WORD_RE, D._FIND_CURRENT_WORD_RE, D._FIND_CURRENT_WORD_INCLUDE_TRAILING_WHITESPACE_RE),
+            (True, D._FIND_BIG_WORD_RE, D._FIND_CURRENT_BIG_WORD_RE,
+             D._FIND_CURRENT_BIG_WORD_INCLUDE_TRAILING_WHITESPACE_RE)):
+        w = enc_bool(W)
+        out += [kv(f"runs{w}", runs(rx)), kv(f"cw{w}", end1(cur)), kv(f"cww{w}", end1(curws))]
+    return " ".join(out)
 
 
 # ------------------------------------------------------------------ oracle
@@ -321,6 +411,49 @@ def same(a: str, b: str, ic: bool) -> bool:
     return a.lower() == b.lower() if ic else a == b
 
 
+def occurrences_fwd(text, sub, lo, hi, ic):
+    """start positions of the leftmost non-overlapping occurrences of `sub` that lie inside [lo, hi]
+    (an empty needle occurs at every position lo..hi)"""
+    out, p, L = [], lo, len(sub)
+    while p + L <= hi:
+        if same(text[p:p + L], sub, ic):
+            out.append(p)
+            p += max(L, 1)
+        else:
+            p += 1
+    return out
+
+
+def occurrences_bwd(text, sub, lo, hi, ic):
+    """the same, scanning from `hi` towards `lo` (rightmost first, non-overlapping)"""
+    out, L = [], len(sub)
+    p = hi - L
+    while p >= lo:
+        if same(text[p:p + L], sub, ic):
+            out.append(p)
+            p -= max(L, 1)
+        else:
+            p -= 1
+    return out
+
+
+def run_len(s: str, WORD: bool) -> int:
+    """length of the word / WORD that starts at s[0] (0 when s is empty or starts with a blank)"""
+    if not s or wcls(s[0], WORD) == 0:
+        return 0
+    k = 1
+    while k < len(s) and wcls(s[k], WORD) == wcls(s[0], WORD):
+        k += 1
+    return k
+
+
+def blank_run(s: str) -> int:
+    k = 0
+    while k < len(s) and wcls(s[k], True) == 0:
+        k += 1
+    return k
+
+
 def oracle_text(text, d: Document, q, bad):
     lines = text.split("\n")
     op = q[0]
@@ -332,6 +465,11 @@ def oracle_text(text, d: Document, q, bad):
         starts = [sum(len(l) + 1 for l in lines[:k]) for k in range(len(lines))]
         if list(d._line_start_indexes) != starts:
             bad("Document._line_start_indexes", "starts", "line start indexes are not the cumulative line lengths")
+        ne = d.empty_line_count_at_the_end()
+        if not (0 <= ne <= len(lines) and all(blank(l) for l in lines[len(lines) - ne:])
+                and (ne == len(lines) or not blank(lines[len(lines) - ne - 1]))):
+            bad("Document.empty_line_count_at_the_end", "suffix",
+                f"{ne} is not the length of the longest all-blank suffix of the lines")
         # both round trips, for every index and every valid (row, col)
         for i in range(len(text) + 1):
             r, c = d.translate_index_to_position(i)
@@ -473,57 +611,104 @@ def oracle_cur(text, cur, d: Document, q, bad):
         r = d.find_next_matching_line(blank, k)
         if r is not None and not (1 <= r and row + r < len(lines) and blank(lines[row + r])):
             bad("Document.find_next_matching_line", "target", "reported line does not match")
-        r = d.find_previous_matching_line(blank, k)
-        if r is not None and not (r <= -1 and row + r >= 0 and blank(lines[row + r])):
+        rp = d.find_previous_matching_line(blank, k)
+        if rp is not None and not (rp <= -1 and row + rp >= 0 and blank(lines[row + rp])):
             bad("Document.find_previous_matching_line", "target", "reported line does not match")
+        if k >= 1:
+            # exactly which blank line: the min(count, total)-th one counted away from the cursor row
+            starts = [sum(len(l) + 1 for l in lines[:j]) for j in range(len(lines))]
+            above = [j for j in range(row - 1, -1, -1) if blank(lines[j])]
+            below = [j for j in range(row + 1, len(lines)) if blank(lines[j])]
+            ea = above[min(k, len(above)) - 1] - row if above else None
+            eb = below[min(k, len(below)) - 1] - row if below else None
+            if rp != ea:
+                bad("Document.find_previous_matching_line", "not the count-th matching line", f"count {k}: {rp}, expected {ea}")
+            if r != eb:
+                bad("Document.find_next_matching_line", "not the count-th matching line", f"count {k}: {r}, expected {eb}")
+            for flag in (False, True):
+                if ea is None:
+                    exp = -cur
+                else:
+                    tr = row + ea
+                    exp = min(0, starts[tr] + min(col, len(lines[tr])) + (0 if flag else 1) - cur)
+                m = d.start_of_paragraph(k, flag)
+                if m != exp:
+                    bad("Document.start_of_paragraph", "target", f"count {k} before={flag}: offset {m}, expected {exp}")
+                if eb is None:
+                    exp = n - cur
+                else:
+                    tr = row + eb
+                    exp = max(0, starts[tr] + min(col, len(lines[tr])) - (0 if flag else 1) - cur)
+                m = d.end_of_paragraph(k, flag)
+                if m != exp:
+                    bad("Document.end_of_paragraph", "target", f"count {k} after={flag}: offset {m}, expected {exp}")
     elif op == "F":
         sub, k = q[1], q[2]
-        for icl in (False, True):
-            for inc in (False, True):
-                for ic in (False, True):
-                    m = d.find(sub, in_current_line=icl, include_current_position=inc, ignore_case=ic, count=k)
-                    site = "Document.find"
-                    if m is None:
-                        continue
-                    ok = on_line(site, m, "in_current_line") if icl else inb(site, m)
-                    if not ok:
-                        continue
-                    p = cur + m
-                    if m < (0 if inc else 1):
-                        bad(site, "direction", f"offset {m} not after the start point")
-                    elif not same(text[p:p + len(sub)], sub, ic) or (icl and p + len(sub) > le):
-                        bad(site, "no match at target", f"{sub!r} does not occur at {p}")
-                    elif k == 1:
-                        lo = cur + (0 if inc else 1)
-                        for x in range(lo, p):
-                            if same(text[x:x + len(sub)], sub, ic) and x + len(sub) <= (le if icl else n):
-                                bad(site, "not nearest", f"{sub!r} already occurs at {x} < {p}")
-                                break
-        for icl in (False, True):
-            for ic in (False, True):
-                m = d.find_backwards(sub, in_current_line=icl, ignore_case=ic, count=k)
-                site = "Document.find_backwards"
-                if m is None:
-                    continue
-                ok = on_line(site, m, "in_current_line") if icl else inb(site, m)
-                if not ok:
-                    continue
-                p = cur + m
-                if p + len(sub) > cur:
-                    bad(site, "direction", f"match at {p} is not entirely before the cursor")
-                elif not same(text[p:p + len(sub)], sub, ic):
-                    bad(site, "no match at target", f"{sub!r} does not occur at {p}")
-                elif k == 1:
-                    for x in range(p + 1, cur - len(sub) + 1):
-                        if same(text[x:x + len(sub)], sub, ic) and (not icl or x >= ls):
-                            bad(site, "not nearest", f"{sub!r} also occurs at {x} > {p}")
-                            break
+        found = {(icl, inc, ic): d.find(sub, in_current_line=icl, include_current_position=inc, ignore_case=ic, count=k)
+                 for icl in (False, True) for inc in (False, True) for ic in (False, True)}
+        foundb = {(icl, ic): d.find_backwards(sub, in_current_line=icl, ignore_case=ic, count=k)
+                  for icl in (False, True) for ic in (False, True)}
+        for (icl, inc, ic), m in found.items():
+            site = "Document.find"
+            if m is None:
+                continue
+            ok = on_line(site, m, "in_current_line") if icl else inb(site, m)
+            if not ok:
+                continue
+            p = cur + m
+            if m < (0 if inc else 1):
+                bad(site, "direction", f"offset {m} not after the start point")
+            elif not same(text[p:p + len(sub)], sub, ic) or (icl and p + len(sub) > le):
+                bad(site, "no match at target", f"{sub!r} does not occur at {p}")
+            elif k == 1:
+                lo = cur + (0 if inc else 1)
+                for x in range(lo, p):
+                    if same(text[x:x + len(sub)], sub, ic) and x + len(sub) <= (le if icl else n):
+                        bad(site, "not nearest", f"{sub!r} already occurs at {x} < {p}")
+                        break
+        for (icl, ic), m in foundb.items():
+            site = "Document.find_backwards"
+            if m is None:
+                continue
+            ok = on_line(site, m, "in_current_line") if icl else inb(site, m)
+            if not ok:
+                continue
+            p = cur + m
+            if p + len(sub) > cur:
+                bad(site, "direction", f"match at {p} is not entirely before the cursor")
+            elif not same(text[p:p + len(sub)], sub, ic):
+                bad(site, "no match at target", f"{sub!r} does not occur at {p}")
+            elif k == 1:
+                for x in range(p + 1, cur - len(sub) + 1):
+                    if same(text[x:x + len(sub)], sub, ic) and (not icl or x >= ls):
+                        bad(site, "not nearest", f"{sub!r} also occurs at {x} > {p}")
+                        break
+        if k >= 1:
+            # exactly the count-th non-overlapping occurrence (None iff there are fewer)
+            for (icl, inc, ic), m in found.items():
+                hi = le if icl else n
+                occ = [] if (not inc and cur >= hi) else occurrences_fwd(text, sub, cur + (0 if inc else 1), hi, ic)
+                exp = occ[k - 1] - cur if len(occ) >= k else None
+                if m != exp:
+                    bad("Document.find", "not the count-th match",
+                        f"in_current_line={icl} include_current_position={inc} ignore_case={ic} count {k}: {m}, expected {exp}")
+            for (icl, ic), m in foundb.items():
+                occ = occurrences_bwd(text, sub, ls if icl else 0, cur, ic)
+                exp = occ[k - 1] - cur if len(occ) >= k else None
+                if m != exp:
+                    bad("Document.find_backwards", "not the count-th match",
+                        f"in_current_line={icl} ignore_case={ic} count {k}: {m}, expected {exp}")
         if d.has_match_at_current_position(sub) != (text[cur:cur + len(sub)] == sub):
             bad("Document.has_match_at_current_position", "match", "has_match_at_current_position")
         for ic in (False, True):
-            for p in d.find_all(sub, ignore_case=ic):
+            fa = d.find_all(sub, ignore_case=ic)
+            for p in fa:
                 if not (0 <= p <= n and same(text[p:p + len(sub)], sub, ic)):
                     bad("Document.find_all", "no match at target", f"{sub!r} does not occur at {p}")
+                    break
+            else:
+                if list(fa) != occurrences_fwd(text, sub, 0, n, ic):
+                    bad("Document.find_all", "not all non-overlapping occurrences", f"{sub!r}: {list(fa)}")
     elif op == "W":
         k = q[1]
         swap = {"find_next_word_beginning": "find_previous_word_beginning",
@@ -560,6 +745,29 @@ def oracle_cur(text, cur, d: Document, q, bad):
                     bad(site, f"not a word {kind}", f"count {k} WORD={W}: offset {m} -> index {p}")
                 elif (lo is not None and m < lo) or (hi is not None and m > hi):
                     bad(site, "direction", f"count {k} WORD={W}: offset {m}")
+            if k != 0:
+                # exactly the |count|-th word start / word end counted away from the cursor
+                starts = [x for x in range(n) if is_word_start(text, x, W)]
+                ends = [x for x in range(1, n + 1) if is_word_end(text, x, W)]
+                kk = abs(k)
+
+                def pick(cands):
+                    return cands[kk - 1] - cur if len(cands) >= kk else None
+
+                exp_nwb = pick([x for x in starts if x > cur])
+                exp_pwb = pick([x for x in reversed(starts) if x < cur])
+                exp_nwe = {inc: pick([x for x in ends if x >= cur + (1 if inc else 2)]) for inc in (False, True)}
+                exp_pwe = pick([x for x in reversed(ends) if x <= cur]) if cur < n else "D1"
+                if k > 0:
+                    exp = [exp_nwb, exp_nwe[False], exp_nwe[True], exp_pwb, exp_pwe, exp_pwb]
+                else:   # negative counts delegate (find_next_word_ending(-n) ignores include_current_position)
+                    exp = [exp_pwb, exp_pwe, exp_pwe, exp_nwb, exp_nwe[False], None]
+                for idx, ((name, m), e) in enumerate(zip(results, exp)):
+                    if e == "D1" or (k < 0 and idx == 5):
+                        continue     # known finding region / find_start_of_previous_word has no negative counts
+                    if m != e:
+                        bad("Document." + name, "not the count-th word boundary",
+                            f"count {k} WORD={W}: offset {m}, expected {e}")
     elif op == "WB":
         for W in (False, True):
             for lead in (False, True):
@@ -579,6 +787,19 @@ def oracle_cur(text, cur, d: Document, q, bad):
                             bad(site, "not a word end", f"end {e}")
                         elif s < 0 and not is_word_start(text, cur + s, W):
                             bad(site, "not a word start", f"start {s}")
+                    # all flag combinations: the word part around the cursor, extended by exactly the
+                    # adjacent run of blanks of the line on a side whose flag is set
+                    aft, bef = text[cur:le], text[ls:cur][::-1]
+                    ea, eb = run_len(aft, W), run_len(bef, W)
+                    if not W and ea and eb and (wcls(text[cur - 1], False) == 1) != (wcls(text[cur], False) == 1):
+                        eb = 0
+                    if trail and ea:
+                        ea += blank_run(aft[ea:])
+                    if lead and eb:
+                        eb += blank_run(bef[eb:])
+                    if (s, e) != (-eb, ea):
+                        bad(site, "whitespace flags" if (lead or trail) else "not the word under the cursor",
+                            f"WORD={W} lead={lead} trail={trail}: {(s, e)}, expected {(-eb, ea)}")
             w = d.get_word_under_cursor(WORD=W)
             s, e = d.find_boundaries_of_current_word(WORD=W)
             if w != text[cur + s:cur + e]:
@@ -586,6 +807,12 @@ def oracle_cur(text, cur, d: Document, q, bad):
             w = d.get_word_before_cursor(WORD=W)
             if not text[:cur].endswith(w) or any(wcls(c, True) == 0 for c in w):
                 bad("Document.get_word_before_cursor", "suffix", f"{w!r} is not a blank-free suffix of the text before the cursor")
+            elif (w == "") != (cur == 0 or text[cur - 1].isspace()):
+                bad("Document.get_word_before_cursor", "empty", f"{w!r}: must be empty exactly after a blank / at the start")
+            elif w and (len({wcls(c, W) for c in w}) != 1
+                        or (cur - len(w) > 0 and wcls(text[cur - len(w) - 1], W) == wcls(w[0], W))):
+                bad("Document.get_word_before_cursor", "not the word before the cursor",
+                    f"{w!r} is not the maximal single word that ends at the cursor")
     elif op in ("BR", "BL"):
         l, r = q[1], q[2]
         if op == "BR":
@@ -602,6 +829,23 @@ def oracle_cur(text, cur, d: Document, q, bad):
                 inner = text[cur + 1:p] if op == "BR" else text[p + 1:cur]
                 if inner.count(l) != inner.count(r):
                     bad(site, "unbalanced", f"interior {inner!r} is not balanced")
+        if l != r and (m is None or m != 0) and 0 <= cur <= n:
+            # the first bracket that balances is reported; None only when none in range balances
+            if op == "BR":
+                lim = n if q[3] is None else min(n, q[3])
+                cand = range(cur + 1, lim if m is None else min(lim, cur + m))
+                hit = [x for x in cand if text[x] == r and text[cur + 1:x].count(l) == text[cur + 1:x].count(r)]
+                if m is None and text[cur:cur + 1] == r:
+                    hit = [cur]
+            else:
+                lim = 0 if q[3] is None else max(0, q[3])
+                cand = range(lim if m is None else max(lim, cur + m + 1), cur)
+                hit = [x for x in cand if text[x] == l and text[x + 1:cur].count(l) == text[x + 1:cur].count(r)]
+                if m is None and text[cur:cur + 1] == l:
+                    hit = [cur]
+            if hit:
+                bad(site, "missed balancing bracket" if m is None else "not the first balancing bracket",
+                    f"offset {m}, but the bracket at {hit[0]} balances")
     elif op == "BM":
         m = d.find_matching_bracket_position(start_pos=q[1], end_pos=q[2])
         site = "Document.find_matching_bracket_position"
@@ -614,6 +858,21 @@ def oracle_cur(text, cur, d: Document, q, bad):
                 inner = text[cur + 1:cur + m] if m > 0 else text[cur + m + 1:cur]
                 if inner.count(pair[0]) != inner.count(pair[1]):
                     bad(site, "unbalanced", f"interior {inner!r} is not balanced")
+        ch = text[cur:cur + 1]
+        for a, b in ("()", "[]", "{}", "<>"):
+            if ch == a and m >= 0:
+                lim = n if q[2] is None else min(n, q[2])
+                cand = range(cur + 1, lim if m == 0 else min(lim, cur + m))
+                hit = [x for x in cand if text[x] == b and text[cur + 1:x].count(a) == text[cur + 1:x].count(b)]
+            elif ch == b and m <= 0:
+                lim = 0 if q[1] is None else max(0, q[1])
+                cand = range(lim if m == 0 else max(lim, cur + m + 1), cur)
+                hit = [x for x in cand if text[x] == a and text[x + 1:cur].count(a) == text[x + 1:cur].count(b)]
+            else:
+                continue
+            if hit:
+                bad(site, "missed partner" if m == 0 else "not the first balancing partner",
+                    f"offset {m}, but the bracket at {hit[0]} balances")
 
 
 def oracle_cache(case):
@@ -650,9 +909,23 @@ def oracle_cache(case):
     return v
 
 
+SCAN_QS = [["W", 1], ["W", 2], ["WB"]]
+
+
 def oracle(case):
     if case.get("kind") == "cache":
         return oracle_cache(case)
+    if case.get("kind") == "scan":
+        # the property on the real Document for every text of the batch: word motions and word
+        # boundaries at every cursor (character classes decided by `re`, not by the model)
+        v, seen = [], set()
+        for t in case["texts"]:
+            curs = list(range(len(t) + 1)) if len(t) <= 6 else sorted({0, 1, len(t) // 2, len(t) - 1, len(t)})
+            for sub in oracle({"text": t, "curs": curs, "share": True, "qs": SCAN_QS}):
+                if sub["signature"] not in seen:
+                    seen.add(sub["signature"])
+                    v.append(sub)
+        return v
     v = []
     text = case["text"]
     get = make_docs(case)
@@ -690,6 +963,8 @@ def queries_for(text, needles, counts_w, pairs=(("(", ")"),)):
     for k in counts_w:
         qs.append(["LR", k])
         qs.append(["W", k])
+        if k >= 1:
+            qs.append(["WS", k])
     for k in (1, 2, 3):
         for pref in (None, 0, 1, maxl + 1):
             qs.append(["UD", k, pref])
@@ -737,6 +1012,7 @@ def rand_queries(rng, text, cur_hint):
         k = rng.choice([1, 1, 2, 3, 5, -1, -2, 0, n, n + 1])
         qs.append(["LR", k])
         qs.append(["W", rng.choice([1, 1, 2, 3, 4, -1, -2, 0])])
+        qs.append(["WS", rng.choice([1, 1, 2, 3, 4, 7])])
     for _ in range(2):
         qs.append(["UD", rng.choice([1, 1, 2, 3, len(lines), len(lines) + 1]),
                    rng.choice([None, None, 0, 1, maxl, maxl + 3, -1])])
@@ -773,6 +1049,26 @@ def exhaustive(alpha, lens, needles, pairs, counts_w=(-2, -1, 0, 1, 2, 3)):
                    "qs": queries_for(text, needles, counts_w, pairs)}
 
 
+# alphabet of the scanner differential: ASCII word characters, non-ASCII letters (not in
+# [a-zA-Z0-9_]: class "other"), a wide character, a combining mark, a non-ASCII digit, punctuation,
+# an ASCII blank and two Unicode blanks (one of them a line separator that "\n".split does not cut)
+SCAN_ALPHA = ["a", "Z", "7", "_", "é", "ß", "世", "́", "٣", ".", " ", "\u2028", "\xa0"]
+SCAN_BATCH = 40
+
+
+def scan_cases(tier, rng):
+    texts = []
+    small = ["a", "é", "_", "世", "́", "٣", ".", " ", "\u2028"]
+    for n in range(0, 4 if tier == "quick" else 5):
+        for tup in itertools.product(small, repeat=n):
+            texts.append("".join(tup))
+    for _ in range(2500 if tier == "quick" else 40000):
+        n = rng.choice([4, 5, 6, 8, 12, 20])
+        texts.append("".join(rng.choice(SCAN_ALPHA) for _ in range(n)))
+    for i in range(0, len(texts), SCAN_BATCH):
+        yield {"kind": "scan", "text": "", "curs": [], "qs": [], "texts": texts[i:i + SCAN_BATCH]}
+
+
 def cases(tier, rng):
     if tier == "quick":
         yield from exhaustive(ALPHA, range(0, 5), NEEDLES_X, (("(", ")"),))
@@ -794,6 +1090,7 @@ def cases(tier, rng):
         yield {"text": text, "curs": sorted(curs), "share": rng.random() < 0.7,
                "qs": rand_queries(rng, text, None)}
     yield from cache_cases(tier, rng)
+    yield from scan_cases(tier, rng)
 
 
 def cache_cases(tier, rng):
@@ -817,19 +1114,28 @@ def cache_cases(tier, rng):
 def sample_view(case):
     if case.get("kind") == "cache":
         return case
+    if case.get("kind") == "scan":
+        return dict(case, texts=case["texts"][:4] + [f"... {len(case['texts'])} texts"])
     return dict(case, qs=case["qs"][:6] + [f"... {len(case['qs'])} queries x {len(case['curs'])} cursors"])
 
 
 def nontrivial(case):
     if case.get("kind") == "cache":
         return len(case["kops"]) > 1
+    if case.get("kind") == "scan":
+        return any(case["texts"])
     return len(case["text"]) > 0
 
 
 def distribution(cases):
     d = {"text_len": {}, "queries": {}, "share": {"true": 0, "false": 0}, "lines": 0, "cache_cases": 0,
-         "cache_ops": {}}
+         "cache_ops": {}, "scan_cases": 0, "scan_texts": 0}
     for c in cases:
+        if c.get("kind") == "scan":
+            d["scan_cases"] += 1
+            d["scan_texts"] += len(c["texts"])
+            d["lines"] += len(c["texts"])
+            continue
         if c.get("kind") == "cache":
             d["cache_cases"] += 1
             d["lines"] += 1
